@@ -231,4 +231,98 @@ Section Step.
       rewrite <- (c_resize_view_eq c h a n) by lia.
       cbn [s_resize_wr s_wr']. apply (resize_view_R junk c s h a dy r boff e n0 cap n HR Ha Hs); nia.
   Qed.
+
+  Lemma can_resize_own s h dy e n b n' : can_resize s h (SOwn dy e n b) n' = true -> 0 <= n' /\ n' * e <= MAXB /\ rooted s h = false.
+  Proof. unfold can_resize. simpl. intros H. bools H. destruct (rooted s h); [discriminate|]. repeat split; lia. Qed.
+  Lemma can_resize_view s h dy r boff e n cap n' : can_resize s h (SView dy r boff e n cap) n' = true -> 0 <= n' /\ n' * e <= cap.
+  Proof. unfold can_resize. simpl. intros H. bools H. split; lia. Qed.
+
+  (* resize followed by a write at position p *)
+  Lemma resize_wr_R c s h a sa n' p d :
+    R c s -> lget (c_arrs c) h = Some a -> sget s h = Some sa -> can_resize s h sa n' = true ->
+    0 <= p <= Z.min (s_cnt sa) n' * s_esz sa -> p + len d = n' * s_esz sa ->
+    exists a1, lget (c_arrs (c_resize junk c h a n')) h = Some a1 /\
+               R (c_wr (c_resize junk c h a n') a1 p d) (s_resize_wr s h sa n' p d).
+  Proof.
+    intros HR Ha Hs Hcr Hp Hpd. destruct sa as [dy e n b|dy r boff e n cap]; simpl in Hp, Hpd.
+    - destruct (can_resize_own _ _ _ _ _ _ _ Hcr) as (G1 & G2 & G3).
+      pose proof (entry_own _ _ _ _ _ _ _ _ HR Ha Hs) as (H1 & H2 & H3 & H4 & H5 & H6 & _).
+      apply (resized_wr _ s h dy e n b n' p d); try assumption; try lia.
+      apply resize_resized; assumption.
+    - destruct (can_resize_view _ _ _ _ _ _ _ _ _ Hcr) as (G1 & G2).
+      pose proof (resize_view_R junk c s h a dy r boff e n cap n' HR Ha Hs G1 G2) as HR1.
+      destruct (entry_some _ _ h _ HR1 (sget_set_same _ _ _)) as [a1 Ha1]. exists a1. split; [exact Ha1|].
+      cbn [s_resize_wr]. apply (write_R _ _ h a1 _ p d HR1 Ha1 (sget_set_same _ _ _)); simpl; lia.
+  Qed.
+
+  Lemma sim_resize c s h n d : R c s -> legal_step s (OResize h n d) = true -> sim c s (OResize h n d).
+  Proof.
+    intros HR HL. cbn [ArrayModel.legal_step] in HL. live1 h HR HL sa Hs a Ha.
+    apply andb_prop in HL. destruct HL as [HL Lb]. apply andb_prop in HL. destruct HL as [HL L0].
+    destruct (esz_cnt _ _ _ _ _ HR Ha Hs) as (E1 & E2 & E3 & E4 & E5 & E6 & E7).
+    assert (Hn0 : 0 <= n) by (pose proof HL as HL'; unfold can_resize in HL'; bools HL'; lia).
+    expose. unfold with1, swith1, cget. rewrite Ha, Hs. rewrite E1, E2.
+    destruct (Z.le_gt_cases n (s_cnt sa)) as [Hle|Hgt].
+    - (* no new elements: nothing is written *)
+      assert (d = []) by (apply len0_nil; nia). subst d.
+      destruct (resize_wr_R c s h a sa n (Z.min (s_cnt sa) n * s_esz sa) [] HR Ha Hs HL ltac:(nia) ltac:(rewrite len_nil; nia)) as (a1 & Ha1 & HW).
+      unfold cget. rewrite Ha1. split; [|reflexivity]. exact HW.
+    - replace (Z.min (s_cnt sa) n) with (s_cnt sa) by lia.
+      destruct (resize_wr_R c s h a sa n (s_cnt sa * s_esz sa) d HR Ha Hs HL ltac:(nia) ltac:(nia)) as (a1 & Ha1 & HW).
+      unfold cget. rewrite Ha1. split; [|reflexivity]. exact HW.
+  Qed.
+
+  Lemma push_count_R c s h a dy e n b k d :
+    R c s -> lget (c_arrs c) h = Some a -> sget s h = Some (SOwn dy e n b) -> rooted s h = false ->
+    0 <= k -> (n + k) * e <= MAXB -> len d = k * e ->
+    R (c_push_count junk c h a k d) (s_resize_wr s h (SOwn dy e n b) (n + k) (n * e) d).
+  Proof.
+    intros HR Ha Hs Hnr Hk Hmax Hd.
+    pose proof (entry_own _ _ _ _ _ _ _ _ HR Ha Hs) as (H1 & H2 & H3 & H4 & H5 & H6 & H7 & H8 & _).
+    unfold c_push_count. rewrite H2, H3. rewrite push_count_owner by lia.
+    set (c1 := if a_balloc a <? e * (n + k) then c_resize junk c h a (n + k) else set_arr c h (with_cnt a (n + k))).
+    assert (Hres : resized s h dy e n b (n + k) c1).
+    { subst c1. destruct (a_balloc a <? e * (n + k)) eqn:Ec.
+      - apply resize_resized; try assumption; lia.
+      - apply setcnt_resized; try assumption; lia. }
+    destruct (resized_wr c1 s h dy e n b (n + k) (n * e) d Hres ltac:(lia) ltac:(lia) H5 ltac:(nia) ltac:(nia)) as (a1 & Ha1 & HW).
+    destruct (a_balloc a <? e * (n + k)) eqn:Ec; cbv beta iota; cbn [Z.eqb Pos.eqb]; fold c1; unfold cget; rewrite Ha1;
+      replace (a_off a + e * n - a_off a) with (n * e) by lia; exact HW.
+  Qed.
+
+  Lemma sim_pushc c s h k d : R c s -> legal_step s (OPushCount h k d) = true -> sim c s (OPushCount h k d).
+  Proof.
+    intros HR HL. cbn [ArrayModel.legal_step] in HL. live1 h HR HL sa Hs a Ha. bools HL.
+    destruct sa as [dy e n b|]; [|discriminate HL].
+    assert (Hnr : rooted s h = false) by (destruct (rooted s h); [discriminate|reflexivity]). simpl in *.
+    expose. unfold with1, swith1, cget. rewrite Ha, Hs. split; [|reflexivity]. cbn [fst s_cnt s_esz].
+    apply push_count_R; try assumption; lia.
+  Qed.
+
+  Lemma sim_push c s h d : R c s -> legal_step s (OPush h d) = true -> sim c s (OPush h d).
+  Proof.
+    intros HR HL. cbn [ArrayModel.legal_step] in HL. live1 h HR HL sa Hs a Ha. bools HL.
+    destruct sa as [dy e n b|]; [|discriminate HL].
+    assert (Hnr : rooted s h = false) by (destruct (rooted s h); [discriminate|reflexivity]). simpl in *.
+    expose. unfold with1, swith1, cget. rewrite Ha, Hs. split; [|reflexivity]. cbn [fst s_cnt s_esz].
+    apply push_count_R; try assumption; lia.
+  Qed.
+
+  Lemma sim_pop c s h : R c s -> legal_step s (OPop h) = true -> sim c s (OPop h).
+  Proof.
+    intros HR HL. cbn [ArrayModel.legal_step] in HL. live1 h HR HL sa Hs a Ha. bools HL.
+    destruct sa as [dy e n b|]; [|discriminate HL].
+    assert (Hnr : rooted s h = false) by (destruct (rooted s h); [discriminate|reflexivity]). simpl in L.
+    pose proof (entry_own _ _ _ _ _ _ _ _ HR Ha Hs) as Ho. destruct (own_is_owner _ _ _ _ _ _ Ho) as [Hio Hcapa].
+    destruct Ho as (H1 & H2 & H3 & H4 & H5 & H6 & H7 & H8 & H9 & _).
+    expose. unfold with1, swith1, cget. rewrite Ha, Hs. rewrite H2, H3. rewrite pop_owner by lia. cbv beta iota.
+    cbn [fst snd s_cnt s_esz].
+    replace (a_off a + e * (n - 1) - a_off a) with ((n - 1) * e) by lia.
+    destruct (acc_rd c s h a _ ((n - 1) * e) e HR Ha Hs ltac:(nia) ltac:(lia) ltac:(simpl; nia)) as [Hacc Hrd].
+    split.
+    - unfold c_chk.
+      replace (acc_ok (set_arr c h (with_cnt a (n - 1))) (with_cnt a (n - 1)) ((n - 1) * e) e) with (acc_ok c a ((n - 1) * e) e) by reflexivity.
+      rewrite Hacc. apply (setcnt_R c s h a dy e n b (n - 1) HR Ha Hs Hnr). lia.
+    - exact Hrd.
+  Qed.
 End Step.
